@@ -2,7 +2,7 @@
    rendered result.  All rendering is Gallina, so modeld.ml has no per-function glue. *)
 From Coq Require Import String.
 From Coq Require Import List Strings.Byte NArith ZArith Bool.
-Require Import Bytes Show Tables Codec.
+Require Import Bytes Show Tables Codec Norm CleanPath.
 Import ListNotations.
 
 Definition arg (args : list bs) (i : nat) : bs := nth i args [].
@@ -20,7 +20,9 @@ Definition entries : list (bs * (list bs -> bs)) := [
   (B "decode_noplus", fun a => decode_noplus (arg a 0));
   (B "args_parse", fun a => show_args (args_parse (arg a 0)));
   (B "args_reencode", fun a => match args_parse (arg a 0) with Some l => encode l | None => B "FUEL" end);
-  (B "args_encode", fun a => encode (pairs_kv a))
+  (B "args_encode", fun a => encode (pairs_kv a));
+  (B "normalize_path", fun a => show_obs (normalize_path (arg a 0)));
+  (B "clean_path", fun a => show_obs (clean_path (arg a 0)))
 ].
 
 Fixpoint lookup (cmd : bs) (l : list (bs * (list bs -> bs))) : option (list bs -> bs) :=
